@@ -381,6 +381,18 @@ func (ex *Exec) runFunc(fn *ssa.Function, args []Value, caps []Value, site ssa.I
 		if ex.W.entered[name] > 0 && ex.W.mode&modeHavoc != 0 && ex.W.entered[name] > ex.H.opts["retries"] {
 			// tail-recursive retry from a state that is again arbitrary: subsumed by the harness entry state
 			ex.W.cuts++
+			// the cut is a progress argument: a retry caused by a lost race means somebody else got further. A retry
+			// that follows a FAILED submission of this run is different: under a persistent failure (read succeeds,
+			// write keeps failing) it never ends and the request is never answered (C12: subsystem failure is
+			// answered with an explicit error).
+			if ex.H.wants("C12:retry-only-after-a-lost-race") {
+				for _, y := range ex.W.yields {
+					if y.fault != "" || y.outcome == "error" {
+						ex.H.violation(ex, "C12:retry-only-after-a-lost-race", "the request is retried after a "+y.kind+" submission failed: with a persistent failure it is never answered")
+						break
+					}
+				}
+			}
 			panic(&pathEnd{kind: "cut", msg: "retry of " + fn.Name() + " subsumed by the entry state", pos: ex.posStr()})
 		}
 		ex.W.entered[name]++
